@@ -200,4 +200,42 @@ pub fn c19(out: &mut dyn Write, tier: &str, rng: &mut Rng, st: &mut Stats) {
         writeln!(out, "{}", run_seq_on(&seq, 2, bits, Some(&cands))).unwrap();
         st.hit(&format!("wide.bits{}", bits));
     }
+    // sets of DIFFERENT widths in one environment, combined with each other: a narrower operand says nothing about the
+    // upper bits (its diagram does not mention them).  Observed after every step: the diagram of every set itself
+    // (ordered? reduced? the function the reference gives?) — membership queries alone would not see an unordered one
+    let nm = if tier == "thorough" { 4000 } else { 300 };
+    for i in 0..nm {
+        let widths: Vec<usize> = match i % 5 { 0 => vec![4, 2], 1 => vec![2, 4], 2 => vec![3, 1, 4], 3 => vec![5, 3], _ => vec![1, 3, 2] };
+        let env = Rc::new(BDDEnv::<usize>::new());
+        let sets: Vec<BDDSet> = widths.iter().map(|w| BDDSet::with_env(*w, &env)).collect();
+        let mut seq: Vec<Op> = Vec::new();
+        let mut obs: Vec<String> = Vec::new();
+        for _ in 0..14 {
+            let a = rng.below(sets.len() as u64) as usize;
+            let b = rng.below(sets.len() as u64) as usize;
+            let op = match rng.below(10) {
+                0..=3 => Op::Ins(a, rng.below(1 << widths[a]) as usize),
+                4 | 5 => Op::Uni(a, b),
+                6 => Op::Int(a, b),
+                7 => Op::Cmp(a, b),
+                8 => Op::Unv(a),
+                _ => Op::Emp(a),
+            };
+            let r = guarded(AssertUnwindSafe(|| { match op {
+                Op::Ins(i, e) => { sets[i].insert(e); }
+                Op::Uni(i, j) => { sets[i].union(&sets[j]); }
+                Op::Int(i, j) => { sets[i].intersect(&sets[j]); }
+                Op::Cmp(i, j) => { sets[i].complement(&sets[j]); }
+                Op::Unv(i) => { sets[i].universe(); }
+                Op::Emp(i) => { sets[i].empty(); }
+                _ => {}
+            } }));
+            seq.push(op);
+            if r.is_err() { obs.push("PANIC".to_string()); break; }
+            obs.push(sets.iter().map(|s| show(&s.bdd.borrow())).collect::<Vec<_>>().join(","));
+        }
+        writeln!(out, "C19|mixed|{}|{}|{}", widths.iter().map(|w| w.to_string()).collect::<Vec<_>>().join(","),
+            seq.iter().map(show_op).collect::<Vec<_>>().join(";"), obs.join(";")).unwrap();
+        st.hit("mixed-widths");
+    }
 }
